@@ -277,7 +277,9 @@ InitWindow ==
                 period |-> RMul(Interval(dts, dt), <<m4, 4>>),
                 ts |-> [f \in 1..T |-> 1000 + (f - 1) * dts],
                 prop |-> [f \in 1..T |-> [i \in 1..N |-> [c \in 1..C |->
-                            IF kd = 3 THEN PropVal(f, i, c, m4) % 2 ELSE PropVal(f, i, c, m4)]]]]
+                            IF kd = 3 THEN PropVal(f, i, c, m4) % 2 ELSE PropVal(f, i, c, m4)]]],
+                \* every third real / complex member: particle 1 is undefined in the second frame (frame 1 from 0)
+                undef |-> IF kd # 3 /\ (m4 + T + N) % 3 = 0 THEN {<<1, 1>>} ELSE {}]
       /\ pc = 0
       /\ acc = << >>
 
@@ -287,6 +289,7 @@ Window ==
   /\ Mode = "window"
   /\ pc + W <= cfg.T
   /\ acc' = Append(acc, [mean   |-> [i \in 1..cfg.N |-> [c \in 1..cfg.C |-> WindowMean(cfg.prop, pc, W, i, c)]],
+                         def    |-> [i \in 1..cfg.N |-> WindowDefined(cfg.undef, pc, W, i)],
                          centre |-> CentreSet(pc, W)])
   /\ pc' = pc + 1
   /\ UNCHANGED cfg
@@ -309,6 +312,10 @@ InvWindowMeanDefinition ==
         s  == SumSeq([g \in 1..cfg.T |-> IF (g - 1) \in fr THEN cfg.prop[g][i][c] ELSE 0])
     IN  /\ Cardinality(fr) = W
         /\ acc[k].mean[i][c] = RNorm(s, Cardinality(fr))
+\* an undefined frame makes exactly the windows that contain it undefined (for that particle), no other
+InvUndefinedIsLocal ==
+  \A k \in 1..Len(acc) : \A i \in 1..cfg.N :
+    acc[k].def[i] <=> ({f \in WindowFrames(k - 1, W) : <<f, i>> \in cfg.undef} = {})
 InvRowsAtMostComplete == Len(acc) <= cfg.T - W + 1
 \* the mean of integer-valued data is the exact rational, not its integer part: wherever the window sum
 \* is not a multiple of w the mean has denominator > 1; a 0/1-valued property averages to the fraction of ones
@@ -323,7 +330,9 @@ WindowDone == pc + W > cfg.T
 WindowCase ==
   [m |-> "window", T |-> cfg.T, N |-> cfg.N, C |-> cfg.C, kind |-> cfg.kind, ts |-> cfg.ts, dt |-> cfg.dt, period |-> cfg.period,
    w |-> W, rows |-> SortedSeq(RowsSet(cfg.T, W)), prop |-> cfg.prop,
-   exp |-> [k \in 1..Len(acc) |-> [mean |-> acc[k].mean, centre |-> SortedSeq(acc[k].centre)]]]
+   undef |-> [f \in 1..cfg.T |-> [i \in 1..cfg.N |-> IF <<f - 1, i>> \in cfg.undef THEN 1 ELSE 0]],
+   exp |-> [k \in 1..Len(acc) |-> [mean |-> acc[k].mean, centre |-> SortedSeq(acc[k].centre),
+                                   def |-> [i \in 1..cfg.N |-> IF acc[k].def[i] THEN 1 ELSE 0]]]]
 
 (***************************************************************************)
 Init ==
